@@ -127,7 +127,7 @@ def fn_loc(body):
 
 
 def arg_locals_slice(body, call, idx, **kw):
-    return body.slice(call.args[idx], **kw)
+    return body.slice(call.args[idx], at=call.bb, **kw)
 
 
 def emitters(crate):
@@ -289,7 +289,112 @@ def guarded_by_true_of(body, bb, pred):
             if tgt in zero:
                 continue
             if body.edge_dominates((sb, tgt), bb) or (body.dominates(tgt, bb) and len([p for p in body.pred(tgt)]) == 1):
-                sl = body.slice(t["op"])
+                sl = body.slice(t["op"], at=sb)
                 if pred(sl):
                     return (sb, tgt)
     return None
+
+
+# ------------------------------------------------------------------------------------------------
+# enum discriminant switches
+
+def variant_names(crate, adt):
+    a = crate.adts.get(adt)
+    if a:
+        return [v["name"] for v in a["variants"]]
+    STD = {"std::option::Option": ["None", "Some"], "std::result::Result": ["Ok", "Err"],
+           "std::ops::ControlFlow": ["Continue", "Break"], "std::task::Poll": ["Ready", "Pending"]}
+    return STD.get(adt)
+
+
+def discr_switches(body):
+    """Yield (switch_bb, term, place, tyfacts) for switches whose operand is `discriminant(place)`."""
+    D = body.defs()
+    for sb, t in body.switches():
+        l = operand_local(t["op"])
+        if l is None or t["op"]["place"]["p"]:
+            continue
+        for d in D.get(l, ()):
+            if d["kind"] == "assign" and d["rv"]["k"] == "discr":
+                yield sb, t, d["rv"]["place"], d
+                break
+
+
+def head_of_type(ty):
+    """`&mut a::B<'_, X>` -> `a::B`."""
+    t = ty
+    while t.startswith("&"):
+        t = t[1:]
+        if t.startswith("mut "):
+            t = t[4:]
+        t = t.lstrip()
+        if t.startswith("'"):
+            t = t.split(" ", 1)[1] if " " in t else t
+    m = re.match(r"[A-Za-z0-9_:]+", t)
+    return m.group(0) if m else t
+
+
+def edge_variants(crate, t, adt):
+    """For a switch term on discriminant of `adt`: {target_bb: set(variant names)}."""
+    names = variant_names(crate, adt)
+    if not names:
+        return {}
+    out = {}
+    listed = set()
+    for v, bb in t["targets"]:
+        if isinstance(v, int) and 0 <= v < len(names):
+            out.setdefault(bb, set()).add(names[v])
+            listed.add(names[v])
+    rest = set(names) - listed
+    if rest:
+        out.setdefault(t["otherwise"], set()).update(rest)
+    return out
+
+
+def variant_regions(body, crate, adt, place_pred=None):
+    """List of (variants:set, region:set(blocks), switch_bb, place) for every discriminant switch on
+    a place whose type head is `adt`."""
+    out = []
+    for sb, t, pl, d in discr_switches(body):
+        if head_of_type(pl.get("ty", "")) != adt:
+            continue
+        if place_pred and not place_pred(pl):
+            continue
+        for tgt, vs in edge_variants(crate, t, adt).items():
+            out.append((vs, body.edge_region((sb, tgt)), sb, pl))
+    return out
+
+
+def in_variant_region(body, crate, bb, adt, allowed, place_pred=None):
+    """bb lies in a region reachable only through edges of a discriminant switch on `adt` whose
+    variant set is a subset of `allowed`."""
+    for vs, reg, sb, pl in variant_regions(body, crate, adt, place_pred):
+        if vs <= set(allowed) and bb in reg:
+            return True
+    return False
+
+
+def deep_has_call(crate, sl, *pats, depth=3):
+    """Slice contains a call matching pats, directly or inside a closure / fn item that flows into it."""
+    if sl.has_call(*pats):
+        return True
+    for a in sl.atoms:
+        if a[0] in ("closure", "fn") and a[1] in crate.bodies:
+            if _body_calls_deep(crate, crate.bodies[a[1]], pats, depth):
+                return True
+        if a[0] == "fn" and any(re.fullmatch(p, a[1]) for p in pats):
+            return True
+    return False
+
+
+def _body_calls_deep(crate, b, pats, depth):
+    if b.calls(*pats):
+        return True
+    if depth <= 0:
+        return False
+    for i, j, s in b.assigns():
+        rv = s["rv"]
+        if rv["k"] == "agg" and rv["ak"] == "closure" and rv["def"] in crate.bodies:
+            if _body_calls_deep(crate, crate.bodies[rv["def"]], pats, depth - 1):
+                return True
+    return False
